@@ -66,6 +66,7 @@ type vrRepo struct {
 	repo  *repository.Repository
 	ids   map[string]restic.ID
 	blobs map[string][]byte
+	queued [][]byte
 }
 
 func vrNewRepo(t testing.TB) *vrRepo {
@@ -145,6 +146,42 @@ func (r *vrRepo) saveTreeRaw(t testing.TB, nodes []*data.Node) restic.ID {
 		t.Fatal(err)
 	}
 	return id
+}
+
+// queueTreeRaw encodes the nodes like saveTreeRaw but only queues the blob; flushQueued stores all
+// queued blobs in one upload session (much faster for thousands of small trees).
+func (r *vrRepo) queueTreeRaw(t testing.TB, nodes []*data.Node) restic.ID {
+	var buf bytes.Buffer
+	buf.WriteString(`{"nodes":[`)
+	for i, n := range nodes {
+		if i > 0 {
+			buf.WriteByte(',')
+		}
+		b, err := json.Marshal(n)
+		if err != nil {
+			t.Fatal(err)
+		}
+		buf.Write(b)
+	}
+	buf.WriteString("]}\n")
+	b := buf.Bytes()
+	r.queued = append(r.queued, b)
+	return restic.Hash(b)
+}
+
+func (r *vrRepo) flushQueued(t testing.TB) {
+	err := r.repo.WithBlobUploader(context.Background(), func(ctx context.Context, up restic.BlobSaverWithAsync) error {
+		for _, b := range r.queued {
+			if _, _, _, err := up.SaveBlob(ctx, restic.TreeBlob, b, restic.ID{}, false); err != nil {
+				return err
+			}
+		}
+		return nil
+	})
+	if err != nil {
+		t.Fatal(err)
+	}
+	r.queued = nil
 }
 
 func (r *vrRepo) snapshot(t testing.TB, tree restic.ID) *data.Snapshot {
